@@ -74,11 +74,13 @@ def endpoints(upload_id):
 
 
 DEFECTS = ["none", "duplicated-signed-header", "no-auth", "malformed-auth", "unknown-key", "wrong-secret", "flipped-signature", "altered-signed-header", "altered-query",
+           "appended-query-semicolon", "appended-query-bad-escape",
            "altered-payload", "skewed-date", "wrong-region", "wrong-service", "missing-date", "presigned-ok", "presigned-expired",
            "presigned-modified", "presigned-wrong-secret", "chunked-wrong-secret", "unsigned-trailer-wrong-secret"]
 # the error code the middleware chain must answer with (model: Model/Auth.v); None = any 4xx
 EXPECT = {"no-auth": "InvalidArgument", "malformed-auth": "MissingFields", "unknown-key": "InvalidAccessKeyId", "wrong-secret": "SignatureDoesNotMatch",
           "flipped-signature": "SignatureDoesNotMatch", "altered-signed-header": "SignatureDoesNotMatch", "altered-query": "SignatureDoesNotMatch",
+          "appended-query-semicolon": None, "appended-query-bad-escape": None,
           "altered-payload": None, "skewed-date": "RequestTimeTooSkewed", "wrong-region": "SignatureDoesNotMatch", "wrong-service": "SignatureDoesNotMatch",
           "missing-date": "AccessDenied", "presigned-expired": None, "presigned-modified": "SignatureDoesNotMatch", "presigned-wrong-secret": "SignatureDoesNotMatch",
           "chunked-wrong-secret": "SignatureDoesNotMatch", "unsigned-trailer-wrong-secret": "SignatureDoesNotMatch"}
@@ -116,6 +118,13 @@ def send(cl, ep, defect, port):
     elif defect == "altered-query":
         q = list(query.items()) + [("x-extra", "1")]
         kw["raw_query"] = "&".join("%s=%s" % (s3c.quote_q(k), s3c.quote_q(v)) for k, v in sorted(q))
+    elif defect in ("appended-query-semicolon", "appended-query-bad-escape"):
+        # a pair appended after signing that a lenient query parser drops (raw ';', broken percent escape) but the router keeps:
+        # it selects another sub-resource of the same path
+        extra = {"DELETE": "tagging", "GET": "tagging", "PUT": "tagging", "HEAD": "versionId", "POST": "uploads", "PATCH": "x"}[method]
+        extra += "=;" if defect.endswith("semicolon") else "=%zz"
+        base = "&".join("%s=%s" % (s3c.quote_q(k), s3c.quote_q(v)) for k, v in sorted(query.items()))
+        kw["raw_query"] = (base + "&" if base else "") + extra
     elif defect == "altered-payload":
         kw["send_body"] = (body or b"") + b"-tampered"
     elif defect == "skewed-date":
@@ -169,7 +178,7 @@ def prepare(site, g):
 def run(chk):
     quick = chk.tier == "quick"
     chk.rule = ("a case is (endpoint, credential defect): every route and subresource of the S3 and admin APIs (incl. trailing-slash path "
-                "shapes, directory objects, copy, multipart) x 18 credential defects (missing/malformed authorization, unknown key, wrong "
+                "shapes, directory objects, copy, multipart) x 20 credential defects (missing/malformed authorization, unknown key, wrong "
                 "secret, flipped signature, altered signed header / query / payload, skewed or missing date, wrong region / service, "
                 "expired / modified / wrongly signed presigned URL, aws-chunked bodies signed with a wrong secret); each is followed by a "
                 "byte-exact snapshot comparison of root, versioning, sidecar and IAM directories. Non-trivial when the endpoint reaches a "
@@ -215,11 +224,11 @@ def run(chk):
                 sh = {k.lower(): v for k, v in getattr(r, "sent_headers", {}).items()}
                 if not defect.startswith("presigned") and not defect.endswith("wrong-secret-x") and defect not in ("chunked-wrong-secret", "unsigned-trailer-wrong-secret"):
                     ph = sh.get("x-amz-content-sha256", "")
-                    qk = list(ep[3].keys()) + (["x-extra"] if defect == "altered-query" else [])
+                    qk = list(ep[3].keys()) + (["x-extra"] if defect == "altered-query" else ["tagging"] if defect.startswith("appended-query") else [])
                     row["facts"] = {"auth": sh.get("authorization", ""), "account": defect != "unknown-key", "xdate": sh.get("x-amz-date", ""),
                                     "skew": -1500 if defect == "skewed-date" else 0, "special": ph == "UNSIGNED-PAYLOAD" or ph.startswith("STREAMING-"),
                                     "hash_ok": ph == hashlib.sha256(getattr(r, "wire", b"") or b"").hexdigest(),
-                                    "sig_ok": defect not in ("wrong-secret", "flipped-signature", "altered-signed-header", "duplicated-signed-header", "altered-query", "wrong-region", "wrong-service", "malformed-auth", "no-auth", "unknown-key"),
+                                    "sig_ok": defect not in ("wrong-secret", "flipped-signature", "altered-signed-header", "duplicated-signed-header", "altered-query", "appended-query-semicolon", "appended-query-bad-escape", "wrong-region", "wrong-service", "malformed-auth", "no-auth", "unknown-key"),
                                     "qkeys": qk, "copysrc": sh.get("x-amz-copy-source", "")}
                 rows.append(row)
                 nt = reach.get(ep[0], 0) not in (404, 405, 501, -1)
